@@ -107,7 +107,7 @@ struct SIMDVector<double, simd_abi::avx512> {
         value = _mm512_setr_pd(num0,num0+1.0,num0+2.0,num0+3.0,num0+4.0,num0+5.0,num0+6.0,num0+7.0);
     }
     FASTOR_INLINE void broadcast(const double *data) {
-        // value = _mm512_broadcast_sd(data);
+        value = _mm512_set1_pd(*data);
     }
 
     // In-place operators
